@@ -151,6 +151,7 @@ func (eval Evaluator) ShallowCopy() *Evaluator {
 		C2SDFTMatrix:   eval.C2SDFTMatrix,
 		Evaluator:      heEvaluator,
 		xPow2N1:        eval.xPow2N1,
+		xPow2InvN1:     eval.xPow2InvN1,
 		xPow2N2:        eval.xPow2N2,
 		xPow2InvN2:     eval.xPow2InvN2,
 		DomainSwitcher: DomainSwitcher,
